@@ -425,3 +425,41 @@ func VerifHarness_C07_catchup_replay() {
 	vAssert(len(cs.internalMsgQueue) == 1, "W6-own-vote-produced-by-replay-is-still-queued-for-handling")
 	vAssert(len(w.walLines())-before >= 2, "W6-steps-taken-during-replay-are-logged")
 }
+
+// W7: replay judges every record against the state AS IT IS WHEN THE RECORD IS RE-HANDLED (like
+// the live routine does), not against the state at the start of replay. The log holds the precommit
+// that completed +2/3 for block A (the node moved to Commit and waits for A's parts) and then the
+// precommit-wait timeout of that round, which the live node ignored as stale: replay ignores it too.
+func VerifHarness_C07_replay_ignores_what_was_stale() {
+	w := vC07New(false)
+	defer w.cleanup()
+	cs := w.cs
+	cs.BaseService = *vNewBase()
+	cs.BaseService.Start()
+	tk := &vStartTicker{ch: make(chan timeoutInfo, 4), started: 1}
+	cs.timeoutTicker = tk
+	w.setRound(0)
+	cs.Step = RoundStepPrecommit
+	w.seed(2, 0, types.VoteTypePrecommit, 1)
+	w.seed(3, 0, types.VoteTypePrecommit, 1)
+	w.sigID++
+	last := msgInfo{&VoteMessage{vVote(0, cs.Height, 0, types.VoteTypePrecommit, w.idA, true, w.sigID)}, "peer"}
+	stale := timeoutInfo{Duration: 1, Height: cs.Height, Round: 0, Step: RoundStepPrecommitWait}
+	if vSymbolic() {
+		l1, l2 := "record-1", "record-2"
+		vJSONBind([]byte(l1), &TimedWALMessage{Msg: last})
+		vJSONBind([]byte(l2), &TimedWALMessage{Msg: stale})
+		vSetStub("go-autofile.Group).Search", (*auto.GroupReader)(nil), false, nil, &auto.GroupReader{}, true, nil)
+		vSetStub("go-autofile.GroupReader).ReadLine", "#HEIGHT: 5", nil, l1, nil, l2, nil, "", io.EOF)
+	} else {
+		cs.wal.Save(types.EventDataRoundState{Height: cs.Height, Round: 0, Step: RoundStepNewHeight.String()}) // marker
+		cs.wal.Save(last)
+		cs.wal.Save(stale)
+	}
+	err := cs.catchupReplay(cs.Height) // real
+	vReach("replayed")
+	vAssert(err == nil, "W7-replay-succeeds")
+	vAssert(cs.Height == 5 && cs.Round == 0 && cs.Step == RoundStepCommit && cs.CommitRound == 0,
+		"W7-node-is-back-in-the-commit-step-it-had-reached")
+	vAssert(cs.ProposalBlockParts != nil && cs.ProposalBlockParts.HasHeader(w.idA.PartsHeader), "W7-node-still-waits-for-the-decided-block")
+}
